@@ -36,3 +36,27 @@ def multisets(k, rnd, count=6, maxlen=5):
     for _ in range(count):
         out.append([rnd.randrange(k) for _ in range(rnd.randint(1, maxlen))])
     return out
+
+
+def interleaved(make):
+    """Several live iterators of the SAME call: two consumed alternately (the second running ahead), then a full inner
+    traversal while an outer one is suspended after its first item.  Returns the four sequences that were seen; each
+    must be the complete answer - an iterator may not depend on other iterators of the same object being alive."""
+    a, b = make(), make()
+    out_a, out_b = [], []
+    live = [(a, out_a, 1), (b, out_b, 2)]
+    while live:
+        for entry in list(live):
+            it, out, step = entry
+            for _ in range(step):
+                try:
+                    out.append(next(it))
+                except StopIteration:
+                    live.remove(entry)
+                    break
+    outer, got, inner = make(), [], None
+    for x in outer:
+        got.append(x)
+        if inner is None:
+            inner = list(make())
+    return out_a, out_b, got, (inner if inner is not None else [])
